@@ -81,6 +81,7 @@ SIGNATURES = {}     # dup-selection-truncates was fixed upstream (dcfe778); runl
 
 # generator knobs of this property: shared deps, groups, shared setup-tasks, repeated selection
 KNOBS = {'p_dup_sel': 0.3, 'p_shared': 0.8, 'p_group': 0.45, 'p_meta_names': 0.2, 'p_share_lists': 0.25, 'p_combo': 0.15, 'p_calc_then_fail': 0.25,
+         'p_wild': 0.3, 'p_multi_action': 0.3, 'p_multi_teardown': 0.3, 'p_group_late': 0.35, 'p_calc_extra': 0.25,
          'weights': {'task_dep': 30, 'setup': 24, 'calc_dep': 12, 'file': 10, 'getargs': 12, 'result_dep': 6,
                      'getargs_setup': 6}}
 
